@@ -73,6 +73,10 @@ type pathState struct {
 	hstates    map[*Value]*hashState
 	proveMemo  map[int]bool
 	pemLen     int
+	preSlots   map[*Value]bool
+	preObjs    map[*ByteObj]bool
+	preMaps    map[*MapVal]bool
+	writeSet   int
 	pemOf      map[*ByteObj]SliceVal
 	uniq       int
 	facts      factTab
